@@ -20,8 +20,9 @@ import (
 	"verifharness/lib"
 )
 
-// CaseTimeout bounds one case (normally a few milliseconds).
+// CaseTimeout bounds one case (normally a few milliseconds); ReqTimeout bounds one RPC request.
 const CaseTimeout = 15 * time.Second
+const ReqTimeout = 4 * time.Second
 
 const (
 	NPre   = 2
@@ -77,6 +78,7 @@ type ReqObs struct {
 	Closed  bool
 	Msg     bool
 	Err     string `json:",omitempty"`
+	Hung    bool   `json:",omitempty"` // the request was never answered (the case ends here)
 }
 
 // PubObs is what is seen after a publish + flush.
@@ -388,6 +390,19 @@ func (s *Session) dirsBefore() map[string]bool {
 	return m
 }
 
+// answered runs an RPC call and reports whether it returned within ReqTimeout. A request that is never
+// answered leaves its goroutine behind; the case ends there and is rendered as a crash of that request.
+func answered(f func() error) (error, bool) {
+	done := make(chan error, 1)
+	go func() { done <- f() }()
+	select {
+	case e := <-done:
+		return e, false
+	case <-time.After(ReqTimeout):
+		return nil, true
+	}
+}
+
 // WC issues a write-control request through SourceControl.WriteControl.
 func (s *Session) WC(o Op) ReqObs {
 	cfg := &dastard.WriteControlConfig{Request: o.Req, WriteLJH22: o.L22, WriteLJH3: o.L3, WriteOFF: o.OFF}
@@ -396,7 +411,10 @@ func (s *Session) WC(o Op) ReqObs {
 	}
 	before := s.dirsBefore()
 	var reply bool
-	err := s.RPC.SC.WriteControl(cfg, &reply)
+	err, hung := answered(func() error { return s.RPC.SC.WriteControl(cfg, &reply) })
+	if hung {
+		return ReqObs{Hung: true}
+	}
 	es := ""
 	if err != nil {
 		es = err.Error()
@@ -412,7 +430,12 @@ func (s *Session) WC(o Op) ReqObs {
 func (s *Session) Label(o Op) ReqObs {
 	before := s.dirsBefore()
 	var reply bool
-	err := s.RPC.SC.SetExperimentStateLabel(&dastard.StateLabelConfig{Label: o.Label, WaitForError: true}, &reply)
+	err, hung := answered(func() error {
+		return s.RPC.SC.SetExperimentStateLabel(&dastard.StateLabelConfig{Label: o.Label, WaitForError: true}, &reply)
+	})
+	if hung {
+		return ReqObs{Hung: true}
+	}
 	es := ""
 	if err != nil {
 		es = err.Error()
